@@ -531,8 +531,16 @@ func runC18(r *Run, stratum string) *Violation {
 	r.Calm()
 	for i := 0; i < 40 && viol == nil && l.getPhase() != 2; i++ {
 		r.Settle()
-		for _, rc := range l.ready() {
-			rc.node.Step(rc.ss)
+		for j := 0; j < 4000 && viol == nil && l.getPhase() != 2; j++ {
+			rs := l.ready()
+			if len(rs) == 0 {
+				break
+			}
+			for _, rc := range rs {
+				rc.node.Step(rc.ss)
+			}
+			r.Settle()
+			scanErrors()
 		}
 		scanErrors()
 		r.Advance(150 * time.Millisecond)
